@@ -7,7 +7,7 @@ CONSTANTS
   MaxUpd = 2
   WritesPerRead = 3
   VersionRules = {"wr+1"}
-  WriteGuards = {FALSE}
+  WriteGuards = {0}
   ReuseSlots = TRUE
   EagerFinish = TRUE
   RecordHist = TRUE
